@@ -183,6 +183,9 @@ func Report(c *rt.Ctx, s *Spec, st Stats) {
 	kinds := map[string]map[string]bool{}
 	for k := range st.Outcomes {
 		p := strings.SplitN(k, ":", 2)
+		if len(p) < 2 {
+			continue
+		}
 		if kinds[p[0]] == nil {
 			kinds[p[0]] = map[string]bool{}
 		}
